@@ -183,6 +183,13 @@ fn check_c19(check: &mut Check) -> (String, Vec<String>, String) {
     ("e2e/both_apis", 20),
     ("e2e/appender=custom/block", 10),
     ("e2e/appender=file/block", 5),
+    // "shutting down or dropping the guard": every way of ending a session is sampled
+    ("e2e/teardown=ordinary", 20),
+    ("e2e/teardown=other_thread", 5),
+    ("e2e/teardown=unwind", 5),
+    ("e2e/teardown=unwind_thread", 5),
+    ("e2e/exit_right_after_teardown", 5),
+    ("e2e/teardown_nonordinary/custom_block", 5),
   ] {
     check.require_class(class, min);
   }
@@ -191,7 +198,8 @@ fn check_c19(check: &mut Check) -> (String, Vec<String>, String) {
   }
   (
     "proptest-generated logger trees over a universe of prefix-related names (with and without module boundaries), levels, additivity flags, appender wiring (incl. loggers without appenders) and event scripts; \
-     engine route: every (target, level) through both front-end pre-filters in-process; engine e2e: one child process per case, 1-4 emitting threads, log + tracing, shutdown/drop after or during emission. \
+     engine route: every (target, level) through both front-end pre-filters in-process; engine e2e: one child process per case, 1-4 emitting threads, log + tracing, session ended after or during emission by shutdown() or by dropping the guard \
+     (on the initialising thread or on a thread the guard was moved to; by an ordinary end of scope or by a panic unwinding through the owner, caught by the driver), the child living on or exiting right after the teardown returned. \
      Non-trivial = the configuration has two loggers where one name is a module-path prefix of the other and at least one of the two is non-additive, and some event of the case matched >= 2 loggers. \
      distinct = hash of the scenario"
       .into(),
@@ -200,6 +208,7 @@ fn check_c19(check: &mut Check) -> (String, Vec<String>, String) {
       "end-to-end cases run under the OS scheduler (real threads): replays are statistical".into(),
       "an event counts as 'accepted before shutdown' when its emitting call returned before the driver set its shutdown-started flag".into(),
       "a child that does not finish within the time limit is inconclusive (exit 2), never a violation".into(),
+      "a clause failing under a non-ordinary teardown (other thread, unwinding, immediate exit) is re-decided against a control child: same case, ordinary teardown".into(),
     ],
     "E1 in-process routing vs reference model (hook H5) + E4 child-process end-to-end delivery (real threads)".into(),
   )
